@@ -1071,6 +1071,16 @@ impl Case {
             let repo = std::env::var("PASFMT_REPO").unwrap_or_else(|_| "/repo".to_string());
             let io_layer_panic = matches!(r.exit, Exit::Panic(_))
                 && !r.real_stderr.contains(&format!("{repo}/core/src/"));
+            // Cursors are tracked for a single path only: with `--cursor` the alone invocation of a
+            // file runs code that a batch of several paths does not. A panic there (a cursor inside
+            // a multi-byte character makes the reconstructor slice a `str` off a boundary; the
+            // location reported is libcore's) says nothing about the batch, so the alone run is no
+            // reference for this case.
+            let tracks_cursors = self.extra_args.iter().any(|a| a.starts_with("--cursor"));
+            if tracks_cursors && self.files.len() > 1 && matches!(r.exit, Exit::Panic(_)) {
+                stats.probe("c18_alone_run_with_cursor_tracking_panics");
+                return Verdict::Discarded(format!("alone run of file {i} panics while tracking cursors"));
+            }
             if io_layer_panic {
                 stats.probe("c18_file_whose_alone_run_panics_outside_the_core");
             }
@@ -1100,6 +1110,15 @@ impl Case {
         Self::invariant_findings(&r, &mut out);
         if r.exit == Exit::Budget {
             return Verdict::Judged(out);
+        }
+        // An invocation of a single path legitimately prints `CURSOR=` to stderr; if that write was
+        // made to fail, the run is a failed run of that invocation, not a batch to compare (the
+        // generators only make stderr fail for two or more paths, where nothing may be printed
+        // there; this is reached by shrinking a failing case).
+        if self.files.len() + self.bogus_paths.len() <= 1
+            && r.fired.iter().any(|x| x.target == "<stderr>" && !x.kind.is_benign())
+        {
+            return Verdict::Discarded("single path with a failing stderr".into());
         }
         // the whole batch process died (stack overflow abort, segmentation fault) although every
         // file could be handled by its own invocation
